@@ -892,8 +892,33 @@ func (w selW) readyIdx() int {
 //go:norace
 func (w selW) Ready() bool { return w.readyIdx() >= 0 }
 
+// pick returns the index of the case that proceeds. Go chooses uniformly at random among the ready cases: that choice
+// belongs to the environment, so with more than one ready case it is an enumerated (free) choice point.
+func (w selW) pick() int {
+	var ready []int
+	for i, c := range w.chans {
+		if !c.IsValid() || c.IsNil() {
+			continue
+		}
+		if w.send[i] {
+			if c.Len() < c.Cap() {
+				ready = append(ready, i)
+			}
+		} else if c.Len() > 0 || isClosed(c.Interface()) {
+			ready = append(ready, i)
+		}
+	}
+	switch len(ready) {
+	case 0:
+		return -1
+	case 1:
+		return ready[0]
+	}
+	return ready[ChooseFree(len(ready), "select-among-ready-cases")]
+}
+
 // Select is the scheduling point of a rewritten select statement: it parks until
-// some case can proceed and returns its index (lowest ready index); with a
+// some case can proceed and returns its index (an enumerated choice when several are ready); with a
 // default clause it never parks and returns -1 when nothing is ready. The
 // communication itself is then performed by the case body.
 func Select(hasDefault bool, chans ...any) int {
@@ -913,10 +938,10 @@ func Select(hasDefault bool, chans ...any) int {
 	}
 	if hasDefault {
 		Yield("select-default")
-		return w.readyIdx()
+		return w.pick()
 	}
 	Block(w, -1, "select")
-	i := w.readyIdx()
+	i := w.pick()
 	if i < 0 {
 		panic("vsched.Select: woken with no ready case")
 	}
